@@ -130,6 +130,39 @@ func c17SeededList(c *Ctx) []c17Seeded {
 	return out
 }
 
+// c17SpawnSizes: population sizes of the spawn stage - every size up to 64 and the neighbourhoods of the powers of
+// two and of the round numbers up to 5000 (whatever size threshold an implementation may have is approached from both sides)
+func c17SpawnSizes(quick bool) []int {
+	var out []int
+	for n := 1; n <= 64; n++ {
+		out = append(out, n)
+	}
+	for _, b := range []int{100, 128, 200, 256, 500, 512, 1000, 1024, 2000, 2048, 4096, 5000} {
+		if quick && b > 2048 && b != 4096 {
+			continue
+		}
+		out = append(out, b-1, b, b+1)
+	}
+	return out
+}
+
+// c17Spawn: NewPopulation of n organisms from the XOR start genome with the real generator seeded; one fingerprint.
+func c17Spawn(n int, seed int64) (h uint64, err error) {
+	defer func() {
+		if r := recover(); r != nil {
+			err = fmt.Errorf("panic: %v", r)
+		}
+	}()
+	opts := cfgRows[0].Options()
+	opts.PopSize = n
+	vrand.Seed(seed)
+	pop, err := genetics.NewPopulation(startGenome("xor", xorSeed()), opts)
+	if err != nil {
+		return 0, err
+	}
+	return popHash(pop), nil
+}
+
 // c17Dumps: when set, the population is dumped (Write, WriteBySpecies) and verified between the
 // fitness assignment and every turnover - read-only calls that must not influence evolution.
 var c17Dumps bool
@@ -367,6 +400,7 @@ func c17Verbose(on bool) {
 
 func runC17(c *Ctx) {
 	startGenomes = map[string]*genetics.Genome{} // every run of this process starts from the same genome objects
+	sharedOptions = map[string]*neat.Options{}   // ... and is handed the same options value
 	shareExecutors()                             // ... and uses the same executor values
 	scs := c17Scenarios(c.Quick())
 	seeded := c17SeededList(c)
@@ -452,6 +486,26 @@ func runC17(c *Ctx) {
 					&Replay{Scenario: "seeded", Params: params, Clause: "experiment rerun differs"})
 			}
 		}
+		// spawn stage: populations of many sizes, each spawned three times in the three environments
+		var spawns int64
+		for _, n := range c17SpawnSizes(c.Quick()) {
+			var hs [3]uint64
+			var es [3]string
+			for e := 0; e < 3; e++ {
+				c17Env(e)
+				h, err := c17Spawn(n, 42+c.Seed)
+				hs[e], es[e] = h, fmt.Sprint(err)
+				spawns++
+			}
+			c17Env(0)
+			if hs[0] != hs[1] || hs[0] != hs[2] || es[0] != es[1] || es[0] != es[2] {
+				c.ViolateOrd("C17/spawn-differs", int64(n), fmt.Sprintf("NewPopulation of %d organisms from the same start genome with the generator seeded identically gives different populations in three runs (processor counts all / 1 / 3): fingerprints %x %x %x, errors %v", n, hs[0], hs[1], hs[2], es),
+					&Replay{Scenario: "spawn", Params: map[string]interface{}{"n": n, "seed": 42 + c.Seed}, Clause: "spawn differs"})
+			}
+			c.Distinct(hs[0])
+		}
+		runs += spawns
+		c.Count("spawned_populations", spawns)
 		c.AddEval(runs)
 		c.Count("seeded_runs", runs)
 		c.Count("seeded_scenarios", int64(len(seeded)))
@@ -568,7 +622,7 @@ func runC17(c *Ctx) {
 		c.Sample(map[string]interface{}{"seeded_run": seeded[1].String(), "compared": "this process twice (different GOGC / GOMAXPROCS, unrelated evolution in between) and a second process"})
 	}
 	c.States = int64(len(c.distinct))
-	c.Rule = "(i) explorer mode: for every scenario (start genome incl. one with five disconnected sensors and random populations x configuration row x landscape x base policy; four node activators so that the activation roulette is drawn) EVERY execution within 1 deviation of the base policy is run twice in one process (second pass after garbage, a forced GC and an unrelated scenario, at log level debug with the sinks silenced; all runs of a process start from the same start genome objects) and the base executions a third time in a fresh process; the draw trace (kind and bound of every draw) and the bit-exact fingerprint of the population after construction and after each of 6-8 epochs must agree; one hand-built population of five species runs with all compatibility coefficients 0, so that every placement of a baby is an exact tie between all species. (ii) real math/rand: seeds {0,1,42,VERIF_SEED}+k*1000003 x start genome x configuration x 10 epochs, run twice in-process from the same start genome object (unrelated evolution in between, different GOGC, GOMAXPROCS and log level), once with read-only dumps / verification of the population before every turnover, once in a second process, and twice through Experiment.Execute on a zero-value experiment. states = distinct population fingerprints, transitions = populations produced"
+	c.Rule = "(i) explorer mode: for every scenario (start genome incl. one with five disconnected sensors and random populations x configuration row x landscape x base policy; four node activators so that the activation roulette is drawn) EVERY execution within 1 deviation of the base policy is run twice in one process (second pass after garbage, a forced GC and an unrelated scenario, at log level debug with the sinks silenced; all runs of a process start from the same start genome objects) and the base executions a third time in a fresh process; the draw trace (kind and bound of every draw) and the bit-exact fingerprint of the population after construction and after each of 6-8 epochs must agree; one hand-built population of five species runs with all compatibility coefficients 0, so that every placement of a baby is an exact tie between all species. (ii) real math/rand: NewPopulation for every size 1..64 and the neighbourhoods of the powers of two and round numbers up to 4096 (5000), each three times in the three environments; seeds {0,1,42,VERIF_SEED}+k*1000003 x start genome x configuration x 10 epochs, run twice in-process from the same start genome object (unrelated evolution in between, different GOGC, GOMAXPROCS and log level), once with read-only dumps / verification of the population before every turnover, once in a second process, and twice through Experiment.Execute on a zero-value experiment. states = distinct population fingerprints, transitions = populations produced"
 	c.Count("map_ranges_executed_over_2+_keys_in_instrumented_code", atomic.SwapInt64(&vmap.Ranges, 0))
 	c.Count("map_ranges_with_keys_of_no_canonical_order", atomic.SwapInt64(&vmap.Unordered, 0))
 	c.Rule += ". ENVIRONMENTS: the executions that must agree run under different answers to the two environment choices the harness owns besides the random draws - the iteration order of every map the instrumenter can identify syntactically (range statements are rewritten to iterate over harness-ordered keys: ascending in the first run, descending in the second, rotated by half in the second process / the dump run) the processor count (all / 1 / 3) and the clock (package time is replaced by a shim whose clock the harness sets: 2001 + 1 ms per reading, 2033 + 7 s per reading, 1999 + 1 ns per reading); a dependence of the evolved population on either therefore shows on every run"
@@ -578,9 +632,24 @@ func runC17(c *Ctx) {
 
 func replayC17(c *Ctx, rp *Replay) (bool, string) {
 	startGenomes = map[string]*genetics.Genome{}
+	sharedOptions = map[string]*neat.Options{}
 	shareExecutors()
 	defer c17Verbose(false)
 	defer c17Env(0)
+	if rp.Scenario == "spawn" {
+		n := paramInt(rp, "n")
+		seed := int64(paramInt(rp, "seed"))
+		for k := 0; k < 5; k++ {
+			c17Env(0)
+			a, ea := c17Spawn(n, seed)
+			c17Env(1 + k%2)
+			b, eb := c17Spawn(n, seed)
+			if a != b || fmt.Sprint(ea) != fmt.Sprint(eb) {
+				return true, fmt.Sprintf("two identically seeded spawns of %d organisms differ", n)
+			}
+		}
+		return false, fmt.Sprintf("spawn of %d", n)
+	}
 	if rp.Scenario == "seeded" {
 		s := c17Seeded{Seed: int64(paramInt(rp, "seed")), Cfg: paramInt(rp, "cfg"), Start: paramStr(rp, "start"), Fit: paramInt(rp, "fit"), Epochs: paramInt(rp, "epochs")}
 		if v, ok := rp.Params["seed"].(float64); ok {
